@@ -299,7 +299,8 @@ type udpRun struct {
 	alloc  int
 	dealloc int
 
-	corrupted map[*byte]bool // datagrams (by first byte address) that carry an injected corruption
+	origSum   map[*byte][32]byte // sha256 of the datagram before its first corruption (a second flip of the same bit restores it)
+	corrupted map[*byte]int // copies in flight of datagrams (by first byte address) that carry an injected corruption
 	track     map[*Connection]*connTrack
 	refAcks   map[*Connection]*refSet
 	rcvBufs   map[*[]byte]bool // buffers handed out by the message allocator and not yet delivered/released
@@ -466,11 +467,18 @@ func (r *udpRun) readStep(tid, dgrmId int) {
 	if dgrmId%l != 0 {
 		r.stats["fault.reordered_delivery"]++
 	}
+	wasCorrupted := false
+	if len(d.datagram) > 0 && r.corrupted[&d.datagram[0]] > 0 {
+		wasCorrupted = true
+		if r.corrupted[&d.datagram[0]]--; r.corrupted[&d.datagram[0]] == 0 {
+			delete(r.corrupted, &d.datagram[0]) // the address may be reused by a later, clean datagram
+		}
+	}
 	var enc tlnetUdpPacket.EncHeader
 	var resendReq tlnetUdpPacket.ResendRequest
 	conn, err := t.processIncomingDatagram(d.addr, t.localPid.Ip, d.datagram, &enc, &resendReq)
 	if err != nil {
-		if len(d.datagram) > 0 && r.corrupted[&d.datagram[0]] {
+		if wasCorrupted {
 			r.stats["probe.corrupted_datagram_rejected"]++
 		} else {
 			r.stats["probe.clean_datagram_rejected"]++
@@ -478,7 +486,7 @@ func (r *udpRun) readStep(tid, dgrmId int) {
 		r.logf("read %d: rejected (%v)", tid, err)
 		return
 	}
-	if len(d.datagram) > 0 && r.corrupted[&d.datagram[0]] {
+	if wasCorrupted {
 		r.stats["probe.corrupted_datagram_accepted"]++
 	}
 	if r.keepLog {
@@ -860,6 +868,11 @@ func (r *udpRun) randomEvent() {
 		n := r.pickNode()
 		if l := len(r.fctx.network[n]); l > 0 {
 			idx := r.tape.Next(l)
+			if dd := r.fctx.network[n][idx]; len(dd.datagram) > 0 && r.corrupted[&dd.datagram[0]] > 0 {
+				if r.corrupted[&dd.datagram[0]]--; r.corrupted[&dd.datagram[0]] == 0 {
+					delete(r.corrupted, &dd.datagram[0])
+				}
+			}
 			r.fctx.network[n][idx] = r.fctx.network[n][l-1]
 			r.fctx.network[n] = r.fctx.network[n][:l-1]
 			r.stats["fault.datagram_dropped"]++
@@ -869,7 +882,11 @@ func (r *udpRun) randomEvent() {
 		n := r.pickNode()
 		if l := len(r.fctx.network[n]); l > 0 && l < 64 {
 			idx := r.tape.Next(l)
-			r.fctx.network[n] = append(r.fctx.network[n], r.fctx.network[n][idx])
+			dd := r.fctx.network[n][idx]
+			r.fctx.network[n] = append(r.fctx.network[n], dd)
+			if len(dd.datagram) > 0 && r.corrupted[&dd.datagram[0]] > 0 {
+				r.corrupted[&dd.datagram[0]]++
+			}
 			r.stats["fault.datagram_duplicated"]++
 			r.logf("dup %d dgram %d", n, idx)
 		}
@@ -884,7 +901,20 @@ func (r *udpRun) randomEvent() {
 				mask := byte(1) << uint(r.tape.Next(8))
 				cp[off] ^= mask
 				r.fctx.network[n][idx] = TestDatagram{addr: d.addr, datagram: cp}
-				r.corrupted[&cp[0]] = true
+				orig := sha256.Sum256(d.datagram)
+				if len(d.datagram) > 0 && r.corrupted[&d.datagram[0]] > 0 { // corrupting an already corrupted copy
+					orig = r.origSum[&d.datagram[0]]
+					if r.corrupted[&d.datagram[0]]--; r.corrupted[&d.datagram[0]] == 0 {
+						delete(r.corrupted, &d.datagram[0])
+						delete(r.origSum, &d.datagram[0])
+					}
+				}
+				if sha256.Sum256(cp) == orig {
+					r.stats["probe.second_corruption_restored_the_datagram"]++
+				} else {
+					r.corrupted[&cp[0]] = 1
+					r.origSum[&cp[0]] = orig
+				}
 				r.stats["fault.datagram_corrupted"]++
 				r.logf("corrupt %d dgram %d off %d mask %x", n, idx, off, mask)
 			}
@@ -1087,7 +1117,7 @@ func (udpEngine) Exec(t *testing.T, raw json.RawMessage, tape *vrt.Tape, keepLog
 		return
 	}
 	h := sha256.New()
-	r := &udpRun{sc: sc, tape: tape, bySer: map[uint32]*sentMsg{}, corrupted: map[*byte]bool{}, track: map[*Connection]*connTrack{},
+	r := &udpRun{sc: sc, tape: tape, bySer: map[uint32]*sentMsg{}, corrupted: map[*byte]int{}, origSum: map[*byte][32]byte{}, track: map[*Connection]*connTrack{},
 		refAcks: map[*Connection]*refSet{}, rcvBufs: map[*[]byte]bool{}, logH: h, keepLog: keepLog, stats: map[string]int{}}
 	if sc.Mode == "acks" {
 		return execAcks(r, sc)
